@@ -370,3 +370,86 @@ var histPool = [][]string{
 func genHist(t *rapid.T) []string {
 	return append([]string{}, rapid.SampledFrom(histPool).Draw(t, "hist")...)
 }
+
+// ---------------------------------------------------------------------------
+// driving helper: one chunk per read, snapshots collected
+
+type drive struct {
+	h     *Harness
+	s     *rig.Session
+	st    *rig.Stop
+	parks []*proto.Event // snapshot after each chunk (index i = after chunk i); parks[0] = initial
+	fail  *Failure
+}
+
+func openDrive(h *Harness, child *rig.Child, spec *proto.Spec, o rig.SessionOpts) *drive {
+	s, st := child.Start(spec, o)
+	d := &drive{h: h, s: s, st: st}
+
+	if f := stopFailure(st); f != nil {
+		d.fail = f
+		return d
+	}
+
+	if st.Kind != "park" {
+		d.fail = &Failure{Clause: "infra", Msg: "session did not park: " + st.String(), Infra: true}
+		return d
+	}
+
+	d.parks = append(d.parks, st.Ev)
+
+	return d
+}
+
+// send delivers one chunk; it returns the park snapshot, or nil when the call
+// did not park again (d.st then says what happened; crashes set d.fail).
+func (d *drive) send(b []byte) *proto.Event {
+	if d.fail != nil || d.st.Kind != "park" {
+		return nil
+	}
+
+	d.st = d.s.Send(b)
+
+	if f := stopFailure(d.st); f != nil {
+		d.fail = f
+		return nil
+	}
+
+	if d.st.Kind != "park" {
+		return nil
+	}
+
+	d.parks = append(d.parks, d.st.Ev)
+
+	return d.st.Ev
+}
+
+func (d *drive) sendAll(chunks ...string) *proto.Event {
+	var ev *proto.Event
+	for _, c := range chunks {
+		if ev = d.send([]byte(c)); ev == nil {
+			return nil
+		}
+	}
+
+	return ev
+}
+
+func (d *drive) close() {
+	d.h.Sessions++
+	d.h.Keys += d.s.Keys
+	d.s.Finish()
+}
+
+// cmdsOf lists the command names logged at the current stop.
+func cmdsOf(st *rig.Stop) []string {
+	out := []string{}
+
+	for _, ev := range st.Cmds {
+		if ev.Ev == "cmd" {
+			out = append(out, ev.Name)
+		}
+	}
+
+	return out
+}
